@@ -584,6 +584,12 @@ TEMPLATES = {
                                                   'ordered': True, 'debug': W['flags']['debug']}, 'dict', None),
                    conf=True, E=_IGN, I=[['x+1', 'x^2+2*x+1', 'x'], ['x+1', 'x^2+2*x+1', 'sibling_2'], ['x+1', '', 'x'],
                                           ['x+2', '', 'x+1'], ['x+(', 'x', 'x']]),
+    # sibling variables in a grader with NOTHING to sample (NumericalGrader): the author's value still changes with every
+    # submission (a seeded change evaluated "constant" author expressions once and kept the first submission's siblings)
+    'lg_sibnum': dict(build=lambda W: (ListGrader, {'answers': ['sibling_2/2', '2*sibling_1'], 'subgraders': W['SN'],
+                                                     'ordered': True, 'debug': W['flags']['debug']}, 'dict', None),
+                      conf=True, E=_IGN, I=[['1', '2'], ['3', '6'], ['3', '2'], ['5', '10'], ['2', '4.0'], ['3+', '2'],
+                                             ['6', '3']]),
     'lg_sl': dict(build=lambda W: (ListGrader, {'answers': [['a', 'b'], ['c', 'd']],
                                                  'subgraders': SingleListGrader(subgrader=W['SS']), 'ordered': True},
                                    'dict', None),
@@ -593,7 +599,7 @@ BUILDABLE = sorted(k for k, v in TEMPLATES.items() if 'build' in v)
 LIST_TEMPLATES = sorted(k for k in BUILDABLE if k.startswith('lg_'))
 DICT_TEMPLATES = ['str_plain', 'num_plain', 'form_plain', 'int_plain', 'mat_plain', 'form_dm', 'sl_sn', 'int_sn']
 USES = {'sl_ss': 'SS', 'sl_nested': 'SS', 'lg_ss': 'SS', 'lg_tuple': 'SS', 'lg_multi': 'SS', 'lg_sl': 'SS',
-        'sl_sf': 'SFq', 'int_sf': 'SFq', 'lg_sf': 'SF', 'lg_sib': 'SF', 'sl_sn': 'SNq', 'int_sn': 'SNq', 'lg_mat': 'MP'}
+        'sl_sf': 'SFq', 'int_sf': 'SFq', 'lg_sf': 'SF', 'lg_sib': 'SF', 'lg_sibnum': 'SN', 'sl_sn': 'SNq', 'int_sn': 'SNq', 'lg_mat': 'MP'}
 EVAL_EXPRS = ['A*v+v', 'A^2', 'A^-1', 'v*v', 'x*A', 'f(x)*2k', 'A+1', 'v/0', '-A', 'A*A*v', 'zf(v)*2', 'zf(A)*v', 'x+',
               'y+1', 'n*v', 'zf(x)+n', 'A^-2', '[x, n]*A']
 DEFAULTS = [('StringGrader', {'case_sensitive': False}), ('ItemGrader', {'wrong_msg': 'registered wrong_msg'}),
@@ -937,12 +943,17 @@ def _pair_templates():
     from mitxgraders.comparers import MatrixEntryComparer
     shared_entry = MatrixEntryComparer(entry_partial_credit='proportional')
     shared_linear = LinearComparer(proportional=0.5, offset=0.4, linear=0.2)
+    shared_num = N()
     shared_sub = F(variables=['x'])          # ONE subgrader object serving two ordered ListGraders with sibling answers
     return {
         # sibling variables: what a ListGrader hands its subgrader for ONE submission (the other boxes' formulas) must be gone
         # afterwards - also after a submission that failed (a seeded change wrote them into the subgrader's own sample_from)
         'sib_shared_a': (lambda: L(answers=['sibling_3+1', 'sibling_1^2', 'x'], subgraders=shared_sub, ordered=True),
                          [['x+1', 'x^2+2*x+1', 'x'], ['x+1', 'x^2+2*x+1', 'sibling_2'], ['x+1', '', 'x'], ['x+2', '', 'x+1']]),
+        'sibnum_shared_a': (lambda: L(answers=['sibling_2/2', '2*sibling_1'], subgraders=shared_num, ordered=True),
+                            [['1', '2'], ['1', '3']]),
+        'sibnum_shared_b': (lambda: L(answers=['sibling_2/2', '2*sibling_1'], subgraders=shared_num, ordered=True),
+                            [['3', '6'], ['3', '2'], ['5', '10']]),
         'sib_shared_b': (lambda: L(answers=['x+1', 'sibling_1*2', '3'], subgraders=shared_sub, ordered=True),
                          [['x+1', '2*x+2', '3'], ['x+1', '', '3'], ['', '2', '3'], ['x+1', '2*x+2', '']]),
         'num': (lambda: N(answers='pi'), ['pi', '3.14159', 'e', '1e400', 'infty']),
